@@ -21,7 +21,7 @@ SPEC = {
                   "concrete failing input against the real sanitizer-built library; silence covers the enumerated small scopes completely "
                   "(16-bit, 24-bit, 48-bit top half) and the seeded script space by sampling only.",
     "stages": [
-        {"name": "c01", "variant": "asan", "shards": (16, 16)},
+        {"name": "c01", "variant": "asan", "shards": (16, 16), "args": ["alias_pput=1"]},
     ],
     "min_evaluations": 1000000,
     "min_classes": {"quick": 470, "thorough": 470},
@@ -49,7 +49,7 @@ SPEC = {
     "assumptions": ASSUME_COMMON + [
         "native (unsuffixed) values are read back through get<T>/pget<T> with T itself at suitably aligned addresses and through an alignment-1 POD wrapper elsewhere",
         "NaN payload preservation is observed on x86-64 SSE (float/double passed in xmm registers); an x87 ABI would quiet signalling NaNs outside phosg's control",
-        "aliasing: raw blocks (write) and by-reference values (put<T>, in-place pput<T>) whose storage is the writer's own buffer are demanded; pput<T> with an aliased reference AND growth is only driven with --arg alias_pput=1 (see notes/c01.md)",
+        "aliasing: raw blocks (write) and by-reference values (put<T>, in-place pput<T>) whose storage is the writer's own buffer are demanded; pput<T> with an aliased reference AND growth is driven too (--arg alias_pput=1) since fix c02-3 made it safe",
         "only in-range operations are issued (bounds behaviour belongs to C02); get_line is driven only over text where a CR is either part of CRLF or followed by an ordinary byte",
     ],
 }
